@@ -24,7 +24,7 @@ def leaves (call : String) : List String :=
   let seps : List Char := [',', ';', '[', ']', ' ', ':']
   let parts := body.toList.splitBy (fun a b => !(seps.contains a) && !(seps.contains b))
   (parts.map String.ofList).filter fun p =>
-    p != "" && !(p.toList.all seps.contains) && p != "put" && p != "del" && !p.startsWith "doc("
+    p != "" && !(p.toList.all seps.contains) && p != "put" && p != "del" && p != "sortby" && !p.startsWith "doc("
       || p.startsWith "doc("
 
 def termOfCall (call : String) : Term :=
